@@ -24,7 +24,7 @@ RULE = (
     "seed-chosen set of years in quick, every year in thorough; other calendars sampled) and at both calendar range "
     "ends; ISO rule vs date.isocalendar over all 3652059 ordinals; n-th weekday over every (year, month, occurrence, "
     "weekday) of seed-chosen years (quick) or all years 1-9999 (thorough); next/previous/adjusters on generated dates "
-    "of every calendar. Non-trivial: week-year != calendar year, week >= 52, or within 7 days of a range end; "
+    "of every calendar incl. the field-setting adjusters (day_of_month, month) and invalid weekdays. Non-trivial: week-year != calendar year, week >= 52, or within 7 days of a range end; "
     "distinct by construction (enumerations) or (kind, case) hash."
 )
 ASSUMPTIONS = ["ISO day-of-week = (day number + 3) mod 7 + 1 (checked against datetime in C02)"]
